@@ -44,12 +44,20 @@ def model_check(chk, name, module, text, workers=8, timeout=1500, coverage=False
     return res
 
 
+GEN_CAP = 250000      # edges kept in memory per generation stage (about 1.5 GB of Python objects)
+
+
 def generate(chk, name, init, next_, constants, module='Gen_Trash', workers=8, timeout=1500):
     text = cfg_text(init=init, next_=next_, constants=constants)
-    res = tlc.run_tlc(module, cfg_text=text, workers=workers, timeout=timeout)
+    # an edge is [cfg, pre, lab, post]; the alternative outcomes of one case share (cfg, pre, operation)
+    res = tlc.run_tlc(module, cfg_text=text, workers=workers, timeout=timeout, thin_cap=GEN_CAP,
+                      thin_key=lambda e: [e['cfg'], e['pre'], tt.op_key(e['lab'])])
     chk.add_tlc('gen:' + name, res, constants=' '.join('%s=%s' % kv for kv in constants.items()))
     if res.ok and not res.emitted:
         chk.machinery.append('generation %s produced no transition (vacuous)' % name)
+    if res.thinned > 1:
+        chk.notes.append('%s: TLC generated more than %d edges; 1 case in %d (chosen by a hash of the case) was kept' % (name, GEN_CAP, res.thinned))
+        chk.stage_stats.setdefault('gen:' + name, {'evaluations': 0, 'nontrivial': 0})['all_executed'] = False
     return tt.group_edges(res.emitted) if res.ok else []
 
 
